@@ -225,6 +225,8 @@ func validateBackendTLSPolicyMatchingAllBackends(backendRefs []BackendRef) *cond
 			p1.Spec.Validation.Hostname != p2.Spec.Validation.Hostname
 	}
 
+	var seenBackendWithoutPolicy bool
+
 	for _, backendRef := range backendRefs {
 		if backendRef.BackendTLSPolicy == nil {
 			if referencePolicy != nil {
@@ -232,7 +234,14 @@ func validateBackendTLSPolicyMatchingAllBackends(backendRefs []BackendRef) *cond
 				mismatch = true
 				break
 			}
+			seenBackendWithoutPolicy = true
 			continue
+		}
+
+		if seenBackendWithoutPolicy {
+			// An earlier backend has no policy, so they do not all match
+			mismatch = true
+			break
 		}
 
 		if referencePolicy == nil {
